@@ -174,6 +174,9 @@ type UDPRec struct {
 	// connection itself and then calls Read that many more times (a copy loop
 	// aborted from outside): what those reads return is recorded in PostClose.
 	CloseThenRead int
+	// ZeroReads: every Read is preceded by a Read with an empty buffer (a probe for
+	// readability): it must not consume anything.
+	ZeroReads bool
 }
 
 func (u *UDPRec) Handle(cx *layer4.Connection, _ layer4.Handler) error {
@@ -199,7 +202,14 @@ func (u *UDPRec) Handle(cx *layer4.Connection, _ layer4.Handler) error {
 	}
 	for {
 		t0 := u.E.S.Elapsed()
-		n, err := cx.Read(buf)
+		var n int
+		var err error
+		if u.ZeroReads {
+			n, err = cx.Read(buf[:0])
+		}
+		if err == nil {
+			n, err = cx.Read(buf)
+		}
 		if err == io.EOF {
 			now := u.E.S.Elapsed()
 			lk()
